@@ -379,11 +379,9 @@ func (l *NDNLPLinkService) handleIncomingFrame(frame []byte) {
 			copy(pkt.PitToken, LP.PitToken)
 		}
 
-		// Copy fragment to wire buffer
-		wire = wire[:0]
-		for _, b := range fragment {
-			wire = append(wire, b...)
-		}
+		// Join the fragment(s) into one buffer. This must not reuse the frame
+		// buffer, which the last received fragment still points into.
+		wire = fragment.Join()
 
 		// Parse inner packet in place
 		L3, _, err := spec.ReadPacket(enc.NewBufferReader(wire))
